@@ -260,6 +260,19 @@ class Seeds(es.E2EStream):
         byq = {}
         for (pid, q), d in got.items():
             byq.setdefault(q, [d[i] for i in sorted(d)])
+        # every seed must yield a candidate row (the best one is chosen among ALL of them)
+        nrows = {}
+        seen = set()
+        for c in out['capture']:
+            if c['t'] == 'row' and c['shift'] == 0 and int(c['q']) in qs and c['nq'] == len(qs[int(c['q'])]['labels']):
+                key = (c['pid'], c['q'], c['index'])
+                if key in seen:
+                    continue
+                seen.add(key)
+                nrows[c['q']] = nrows.get(c['q'], 0) + 1
+        for q, want in out['independent'].items():
+            if nrows.get(int(q), 0) != len(want):
+                errs.append('query %s: %d candidate alignments were built from %d seed peaks' % (q, nrows.get(int(q), 0), len(want)))
         for q, want in sorted(out['independent'].items(), key=lambda kv: int(kv[0])):
             have = byq.get(int(q), [])
             if have != want:
